@@ -34,7 +34,8 @@ func init() {
 		"archive/zip.NewReader":       extZipNewReader,
 		"(*strings.Builder).WriteString": extBuilderWrite,
 		"(*strings.Builder).String":      extBuilderString,
-		"(*archive/zip.File).Open":    extNonNilOnSuccess,
+		"(*archive/zip.File).Open":    extZipFileOpen,
+		"io.ReadAll":                  extReadAll,
 		"os.MkdirAll":                 extIOErr,
 		"os.Create":                   extOpenResource,
 		"archive/zip.NewWriter":       extZipNewWriter,
@@ -541,4 +542,59 @@ func extBuilderString(f *frame, cm *ssa.CallCommon, args []Val, st *State, name 
 	}
 	h := sbHeap(f.c.g)
 	return Val{T: f.c.define(name, SStr, fmt.Sprintf("(select %s %s)", st.Heap(h), args[0].T)), Typ: resT}
+}
+
+
+// ---- read side of the archive model: the content of a zip entry is a function of the *zip.File (zf_len, zf_byte);
+// (*zip.File).Open returns a fresh reader positioned at the start of that content; io.ReadAll on a reader that has
+// not been read yet returns, on success, a fresh byte slice holding exactly that content.
+func zipReadHeaps(g *Gen) (src, unread string) {
+	src, unread = "G_ghost_rcsrc", "G_ghost_rcunread"
+	g.TE.noteHeapRaw(src, "(Array Ref Ref)")
+	g.TE.noteHeapRaw(unread, "(Array Ref Bool)")
+	return
+}
+
+const zipReadAssumption = "archive read model: the bytes of a zip entry are a function of its *zip.File (zf_len/zf_byte); (*zip.File).Open returns a fresh reader at the start of the entry; io.ReadAll on a reader not read before returns exactly those bytes in a fresh slice when it reports no error (decompression, CRC checking and the zip directory itself are inside archive/zip and not modelled)"
+
+func extZipFileOpen(f *frame, cm *ssa.CallCommon, args []Val, st *State, name string, resT types.Type, pos token.Pos) Val {
+	c := f.c
+	pre := st.next
+	r := extNonNilOnSuccess(f, cm, args, st, name, resT, pos)
+	rc, err := r.Tuple[0], r.Tuple[1]
+	ok := fmt.Sprintf("(= (itag %s) 0)", err.T)
+	src, unread := zipReadHeaps(c.g)
+	c.assume(st, fmt.Sprintf("(=> %s (and (not (= (iref %s) nil)) (not (alloc (iref %s) %s))))", ok, rc.T, rc.T, pre))
+	st.heaps[src] = c.define("rcsrc", "(Array Ref Ref)", fmt.Sprintf("(ite %s (store %s (iref %s) %s) %s)", ok, st.Heap(src), rc.T, args[0].T, st.Heap(src)))
+	st.heaps[unread] = c.define("rcunread", "(Array Ref Bool)", fmt.Sprintf("(ite %s (store %s (iref %s) true) %s)", ok, st.Heap(unread), rc.T, st.Heap(unread)))
+	c.assumed[zipReadAssumption] = true
+	return r
+}
+
+func extReadAll(f *frame, cm *ssa.CallCommon, args []Val, st *State, name string, resT types.Type, pos token.Pos) Val {
+	c := f.c
+	g := c.g
+	pre := st.next
+	f.havocNext(st)
+	r := f.freshResult(resT, st, name)
+	data, err := r.Tuple[0], r.Tuple[1]
+	src, unread := zipReadHeaps(g)
+	bt := data.Typ.Underlying().(*types.Slice).Elem()
+	ch := g.TE.CellHeap(bt)
+	old := st.Heap(ch)
+	f.havocHeaps(st, []string{ch})
+	cur := st.Heap(ch)
+	// the only cells that may differ are those of arrays allocated by this call
+	c.assume(st, fmt.Sprintf("(forall ((r Ref)) (! (=> (alloc r %s) (= (select %s r) (select %s r))) :pattern ((select %s r))))", pre, cur, old, cur))
+	zl := g.UF("zf_len", []string{"Ref"}, SInt)
+	zb := g.UF("zf_byte", []string{"Ref", SInt}, g.TE.SortOf(bt))
+	rd := fmt.Sprintf("(iref %s)", args[0].T)
+	file := fmt.Sprintf("(select %s %s)", st.Heap(src), rd)
+	cond := fmt.Sprintf("(and (= (itag %s) 0) (select %s %s))", err.T, st.Heap(unread), rd)
+	c.assume(st, fmt.Sprintf("(>= (%s %s) 0)", zl, file))
+	c.assume(st, fmt.Sprintf("(=> %s (and (= (slen %s) (%s %s)) (= (soff %s) 0) (or (= (scap %s) 0) (>= (sarr %s) %s)) (forall ((i Int)) (! (=> (and (<= 0 i) (< i (slen %s))) (= (select %s (selem %s i)) (%s %s i))) :pattern ((selem %s i))))))",
+		cond, data.T, zl, file, data.T, data.T, data.T, pre, data.T, cur, data.T, zb, file, data.T))
+	st.heaps[unread] = c.define("rcunread", "(Array Ref Bool)", fmt.Sprintf("(store %s %s false)", st.Heap(unread), rd))
+	c.assumed[zipReadAssumption] = true
+	return r
 }
